@@ -20,8 +20,9 @@ from checks.common import CheckBase
 from checks import ntv2_writer
 
 INCS = [3600.0, 1800.0, 900.0, 600.0, 450.0, 300.0, 225.0, 180.0, 150.0, 120.0, 112.5, 90.0, 75.0, 60.0, 45.0, 37.5, 30.0]
-FIELD_CLASSES = ['const', 'linear', 'linear', 'bilinear', 'biquadratic', 'biquadratic', 'generic']
+FIELD_CLASSES = ['zero', 'const', 'linear', 'linear', 'bilinear', 'biquadratic', 'biquadratic', 'generic']
 TERMS = {
+    'zero': [],
     'const': [(0, 0)],
     'linear': [(0, 0), (1, 0), (0, 1)],
     'bilinear': [(0, 0), (1, 0), (0, 1), (1, 1)],
@@ -213,7 +214,14 @@ def gen_spec(rng):
     rng.shuffle(sgs)
     fields = []
     for sg in sgs:
-        fields.append([gen_poly(rng, rng.choice(FIELD_CLASSES), sg['nrow'], sg['ncol']) for _ in range(4)])
+        k = rng.random()
+        if k < 0.06:
+            classes = ['zero'] * 4                      # identity grid: every field exactly 0
+        elif k < 0.25:
+            classes = [rng.choice(FIELD_CLASSES), rng.choice(FIELD_CLASSES), 'zero', 'zero']   # accuracies not supplied
+        else:
+            classes = [rng.choice(FIELD_CLASSES) for _ in range(4)]
+        fields.append([gen_poly(rng, c, sg['nrow'], sg['ncol']) for c in classes])
         sg['created'] = '%02d%02d%04d' % (rng.randrange(1, 29), rng.randrange(1, 13), rng.randrange(1990, 2031))
         sg['updated'] = '%02d%02d%04d' % (rng.randrange(1, 29), rng.randrange(1, 13), rng.randrange(1990, 2031))
     header = {'gs_type': 'SECONDS', 'version': rng.choice(['NTv2.0', 'NTv2.1']),
